@@ -468,7 +468,10 @@ impl State {
     fn build0(&mut self) -> Xresult {
         self.clear_last_error();
         self.build1().map_err(|e| {
-            // build-time error
+            // build-time error, also when it was raised while a meta block was running
+            if let Some(ec) = self.last_error.as_mut() {
+                ec.at_runtime = false;
+            }
             if self.last_error.is_none() {
                 let tok = self.last_token.take();
                 let location = tok.and_then(|tok| token_location(&self.sources, &tok));
